@@ -444,6 +444,22 @@ fn alphabet<L: Tab>(run: &Run, st: bool, n: usize) {
     });
 }
 
+/// every 3-variable function embedded at ordered variable triples (model::alpha::embedded3)
+fn embedded<L: Tab>(run: &Run, st: bool, n: usize) {
+    let fam = alpha::embedded3(n, run.thorough() && n <= 8);
+    let total = fam.len() as u64;
+    run.section(&format!("EMBEDDED n={} {}: every 3-variable function at ordered variable triples x all flips/swaps/adjacent/cofactors/roundtrip + from_cofactors", n, L::tname(n)), false, &format!("{} tables g(x_a,x_b,x_c): multiplexers and gates of literals in every index regime; all (i,j)", total), total, 4, |r, l| {
+        for k in r {
+            let t = &fam[k as usize];
+            all_unary::<L>(l, st, t);
+            let u = &fam[(k as usize * 31 + 7) % fam.len()];
+            for i in 0..n {
+                step::<L>(l, st, t, u, 8, i, 0);
+            }
+        }
+    });
+}
+
 pub fn run(run: &Run) {
     run.set_rule("state = one table (a pair for from_cofactors); transition = one transform call with concrete indices; non-trivial = the model successor differs from the argument (for cofactors: the two cofactors differ)");
     run.assume("reference model: index maps of the statement evaluated per assignment (model::tt flip/swap/cof0/cof1/from_cofactors)");
@@ -473,6 +489,14 @@ pub fn run(run: &Run) {
         al::<volute::Lut>(run, false, n);
         if n <= 12 {
             for_static!(n, al(run, true, n));
+        }
+    }
+    fn em<L: Tab>(run: &Run, st: bool, n: usize) {
+        embedded::<L>(run, st, n)
+    }
+    for n in 7..=9usize {
+        for st in [false, true] {
+            for_type!(st, n, em(run, st, n));
         }
     }
     let th = run.thorough();
